@@ -42,9 +42,15 @@ func (c *Concat) Apply(inputs []tensor.Tensor) ([]tensor.Tensor, error) {
 		return inputs, nil
 	}
 
+	// The tensor library takes an axis of -1 for 'all axes', hence the range is checked here.
+	rank := len(inputs[0].Shape())
+	if c.axis < -rank || c.axis >= rank {
+		return nil, ops.ErrAxisOutOfRange(rank, rank, c.axis)
+	}
+
 	axis := c.axis
 	if axis < 0 {
-		axis = len(inputs[0].Shape()) + axis
+		axis = rank + axis
 	}
 
 	out, err := tensor.Concat(axis, inputs[0], inputs[1:]...)
